@@ -449,6 +449,30 @@ pub fn replay(path: &str) -> i32 {
     match r["engine"].as_str().unwrap_or("") {
         "seqx" => seqx_replay(&prop, r),
         "schedx" => schedx::replay(&prop, r),
+        "seqx-probe" => crate::probes::replay(&prop, r),
+        "c14" => crate::c14::replay(r),
+        "readers" => crate::readers::replay(r),
+        e @ ("imagex-tail" | "imagex-mutate" | "imagex-missing" | "codecx") => {
+            let rep = Reporter::new(&prop, "replay");
+            let ran = if e == "codecx" { crate::codecx::replay(&rep, r) } else { crate::imagex::replay(&rep, r) };
+            if !ran {
+                return 2;
+            }
+            let classes = rep.classes();
+            if classes.is_empty() {
+                println!("REPLAY property={} held for this case", prop);
+                0
+            } else {
+                for (k, w, known) in &classes {
+                    println!("REPLAY property={} {} key={} what={}", prop, if *known { "KNOWN-FINDING" } else { "VIOLATION" }, k, w);
+                }
+                if classes.iter().any(|c| !c.2) {
+                    1
+                } else {
+                    0
+                }
+            }
+        }
         e => {
             eprintln!("replay for engine {:?} not supported", e);
             2
